@@ -47,9 +47,11 @@ extern unsigned g_misalign;     // VERIF_MISALIGN=k (1..15): every caller buffer
 // pointer (or NULL when null_if_empty).
 struct Buf {
     unsigned char *base; unsigned char *p; unsigned char *q; size_t n; bool exact; unsigned k;
-    explicit Buf(size_t n_, bool null_if_empty = false, unsigned char fill = 0xEE) : n(n_) {
+    // aligned = true: an OBJECT (a C struct with 64-bit members, a C++ object) rather than a byte buffer: exact size too, but
+    // it keeps the 16-byte alignment of malloc (a misaligned struct would be the caller's fault, not the library's)
+    explicit Buf(size_t n_, bool null_if_empty = false, unsigned char fill = 0xEE, bool aligned = false) : n(n_) {
         exact = g_exact;
-        k = g_misalign;
+        k = aligned ? 0 : g_misalign;
         if (exact) {
             // the END of the block is exact (a sanitizer sees any over-read/over-write), the start is misaligned by k
             base = (unsigned char *)malloc((n ? n : 1) + k);
